@@ -673,6 +673,109 @@ theorem expired_facts (T : Topo) (B : Behav) (vals : CharId → Val) (qs : List 
     rw [mem_chars]
     simp [answered, entryRes, res0, runs]
 
+theorem storeAll_unchanged (qs : List Query) (vals : CharId → Val) (c : CharId)
+    (h : ∀ p ∈ qs, p.id = c → p.valid = none) : storeAll vals qs c = vals c := by
+  induction qs generalizing vals with
+  | nil => rfl
+  | cons p ps ih =>
+    simp only [storeAll]
+    rw [ih _ (fun p' hp' => h p' (List.mem_cons_of_mem _ hp'))]
+    unfold store
+    cases hv : p.valid with
+    | none => rfl
+    | some n =>
+      have : p.id ≠ c := fun hid => by have := h p (List.mem_cons_self ..) hid; simp [hv] at this
+      simp [Ne.symm this]
+
+/-- a write-response value is due for the entry -/
+def WrDue (fixed expired : Bool) (q : Query) : Prop :=
+  runs fixed expired q = true ∧ q.wr = true ∧ ∃ n r, q.valid = some n ∧ q.cb = CharCb.returns (some r)
+
+theorem res0_value_none (fixed expired : Bool) (q : Query) :
+    (res0 fixed expired q).value = none ↔ ¬ WrDue fixed expired q := by
+  unfold res0 WrDue charOutcome
+  by_cases hr : runs fixed expired q = true <;> by_cases hw : q.wr = true <;> simp [hr, hw]
+  cases hv : q.valid with
+  | none => simp
+  | some n =>
+    cases hc : q.cb with
+    | absent => simp
+    | raises => simp
+    | returns r => cases r <;> simp
+
+/-- everything the request does to / says about one entry, as a function of that entry alone
+    (plus the callbacks of its own service and accessory and the expiry decision) -/
+theorem entry_closed_form (T : Topo) (B : Behav) (expired : Bool) (vals : CharId → Val)
+    (qs : List Query) (hd : Distinct qs) (q : Query) (hq : q ∈ qs) :
+    (∀ r, (q.id, r) ∈ (setChars true T B expired vals qs).chars ↔
+        (answered expired q = true ∧ r = entryRes true expired T B q)) ∧
+    (setChars true T B expired vals qs).vals q.id =
+        (if (answered expired q && runs true expired q) = true
+         then (match q.valid with | some n => n | none => vals q.id) else vals q.id) ∧
+    charCalls (setChars true T B expired vals qs).log q.id =
+        (if (answered expired q && runs true expired q) = true then (calledVal q).toList else []) := by
+  refine ⟨?_, ?_, ?_⟩
+  · intro r
+    rw [mem_chars]
+    constructor
+    · rintro ⟨q', hq', ha', hx⟩
+      have hid : q'.id = q.id := (congrArg Prod.fst hx).symm
+      have := distinct_inj hd hq hq' hid
+      subst this
+      exact ⟨ha', congrArg Prod.snd hx⟩
+    · rintro ⟨ha, rfl⟩; exact ⟨q, hq, ha, rfl⟩
+  · rw [setChars_vals]
+    by_cases hf : (answered expired q && runs true expired q) = true
+    · have hmem : q ∈ qs.filter (fun q => answered expired q && runs true expired q) :=
+        List.mem_filter.2 ⟨hq, hf⟩
+      simp only [hf, if_true]
+      cases hv : q.valid with
+      | some n => exact storeAll_of_mem _ _ _ _ (hd.filter _) hmem hv
+      | none =>
+        apply storeAll_unchanged
+        intro p hp hid
+        have := distinct_inj hd hq (List.mem_filter.1 hp).1 hid
+        subst this; exact hv
+    · simp only [hf, if_false]
+      apply storeAll_not_mem
+      intro p hp hid
+      have := distinct_inj hd hq (List.mem_filter.1 hp).1 hid
+      subst this; exact hf (List.mem_filter.1 hp).2
+  · rw [setChars_log, charCalls_append, charCalls_pass, List.append_nil]
+    by_cases hf : (answered expired q && runs true expired q) = true
+    · simp only [hf, if_true]
+      exact charCalls_loop_of_mem _ _ (hd.filter _) (List.mem_filter.2 ⟨hq, hf⟩)
+    · simp only [hf, if_false]
+      apply charCalls_loop_not_mem
+      intro p hp hid
+      have := distinct_inj hd hq (List.mem_filter.1 hp).1 hid
+      subst this; exact hf (List.mem_filter.1 hp).2
+
+/-- invocation counts of the service / accessory callbacks of an entry that is carried out -/
+theorem upper_calls (T : Topo) (B : Behav) (vals : CharId → Val) (qs : List Query) (q : Query)
+    (hq : q ∈ qs) (ha : q.hasValue = true) :
+    svcCalls (setChars true T B false vals qs).log q.id.aid (T.svc q.id) =
+        (if T.svcCb q.id.aid (T.svc q.id) = true
+         then [svcGroup T (upsOf true false qs) q.id.aid (T.svc q.id)] else []) ∧
+    accCalls (setChars true T B false vals qs).log q.id.aid =
+        (if T.accCb q.id.aid = true
+         then [(svcsOf T (upsOf true false qs) q.id.aid).map
+                (fun s => (s, svcGroup T (upsOf true false qs) q.id.aid s))] else []) ∧
+    (q.id, qvalue q) ∈ svcGroup T (upsOf true false qs) q.id.aid (T.svc q.id) ∧
+    T.svc q.id ∈ svcsOf T (upsOf true false qs) q.id.aid := by
+  have hups : (q.id, qvalue q) ∈ upsOf true false qs := by
+    simp only [upsOf, Bool.and_false, Bool.false_eq_true, if_false, List.mem_map, List.mem_filter]
+    exact ⟨q, ⟨hq, by simp [answered, ha]⟩, rfl⟩
+  have hacc : q.id.aid ∈ accsOf (upsOf true false qs) := (mem_accsOf _ _).2 ⟨_, hups, rfl⟩
+  have hsvc : T.svc q.id ∈ svcsOf T (upsOf true false qs) q.id.aid :=
+    (mem_svcsOf _ _ _ _).2 ⟨_, hups, rfl, rfl⟩
+  refine ⟨?_, ?_, ?_, hsvc⟩
+  · rw [setChars_log, svcCalls_append, (upperCalls_loop _ _ _).1, List.nil_append, svcCalls_pass]
+    simp [hacc, hsvc]
+  · rw [setChars_log, accCalls_append, (upperCalls_loop _ _ 0).2, List.nil_append, accCalls_pass]
+    simp [hacc]
+  · simp [svcGroup, List.mem_filter, hups]
+
 /-! ### histories: prepare / advance / write / lose -/
 
 /-- the op changes `prepared_writes[c][p]` -/
